@@ -273,3 +273,38 @@ class Recorder:
             "samples": self.samples,
             "exhaustive": exhaustive,
         }
+
+
+# ---------------------------------------------------------------- a mixed pool of query texts (standard + filters + extensions + compound)
+
+EXTENSION_QUERIES = [
+    "$.a", "a", "$['a']", "$[a]", "b[0]", "$.*", "$..a", "$..[0]", "$[~]", "$.c1[~]", "$..[~]", "$.a.~", "^[?@.a]", "^[?@[0] == 1]",
+    "$[?# == 0]", "$[?# == 'a']", "$.b[?# > 0]", "$[?@ in [1, 2, 'a']]", "$[?'a' in @]", "$[?@ contains 1]", "$[?@.a contains 'b']",
+    "$[?@.a =~ /a.*/]", "$[?@ =~ /A/i]", "$[?@ <> 1]", "$[?@.a and @.b]", "$[?@.a or @.b]", "$[?not @.a]", "$[?@.a == undefined]",
+    "$[?@.a != missing]", "$[?@.a == nil]", "$[?@.a == none]", "$[?@.a == None]", "$[?@.b == True]", "$[?@.b == False]", "$[?@.a == Null]",
+    "$[?@.a == _.x]", "$[?_.x]", "$.a[?@.b[?@ == _.x]]", "$[?@.a == $.a]", "$[?length(@) > 1]", "$[?count(@.*) == 2]", "$[?match(@.a, 'a.*')]",
+    "$[?search(@.b, 'b')]", "$[?value(@..a) == 1]", "$[?typeof(@) == 'number']", "$[?isinstance(@, 'string')]", "$[?is(@.a, 'null')]",
+]
+COMPOUND_QUERIES = [
+    "$.a | $.b", "$.b[*] & $.b[0:2]", "$.b[*] | $.b[*]", "$..a | $..b | $.c1", "$.b[*] & $.b[*] & $.b[1:]", "$[*] & $[0:2] | $[-1]",
+    "$.a[*] & $.b[*] & $.c[*]", "$[0] | $[1] & $[1]", "$.a[*] & $.b[*]", "$.x | $.a[*].b[*]",
+]
+COMPOUND_DOCS = [{"a": [1, 2, 3], "b": [3, 2, 1], "c": [2, 3, 4]}, {"a": [1, 2, 3], "b": [2, 3, 4], "c": [3, 4, 5]}, [1, 2, 3, 2, 1]]
+
+
+def mixed_queries(tier, seed):
+    from monitors import filters as FL
+
+    rng = random.Random(seed * 31 + 5)
+    docs, queries = universe(tier, seed, n_queries_quick=120, n_queries_thorough=1500)
+    texts = [render_query(q, rng.choice((0, 1, 2, 5))) for q in queries]
+    fdocs, exprs = FL.filter_universe(tier, seed, n_quick=150, n_thorough=2000)
+    texts += [FL.render_filter_query(e, rng.choice((0, 16, 32))) for e in exprs]
+    texts += EXTENSION_QUERIES + COMPOUND_QUERIES
+    seen, out = set(), []
+    for t in texts:
+        if t not in seen:
+            seen.add(t)
+            out.append(t)
+    all_docs = [d for d in docs if isinstance(d, (list, dict))][:24] + fdocs + COMPOUND_DOCS
+    return all_docs, out
